@@ -27,6 +27,11 @@ def has (d : Assoc κ ν) (k : κ) : Bool := d.any (·.1 == k)
 def put (d : Assoc κ ν) (k : κ) (v : ν) : Assoc κ ν := d.filter (·.1 != k) ++ [(k, v)]
 /-- `del d[k]` (the caller has checked `k in d`) -/
 def erase (d : Assoc κ ν) (k : κ) : Assoc κ ν := d.filter (·.1 != k)
+/-- `d[k] = v` as Python does it: an existing key keeps its position -/
+def set (d : Assoc κ ν) (k : κ) (v : ν) : Assoc κ ν :=
+  if d.any (·.1 == k) then d.map fun p => if p.1 == k then (p.1, v) else p else d ++ [(k, v)]
+/-- `d.update(other)` -/
+def update (d other : Assoc κ ν) : Assoc κ ν := other.foldl (fun d p => set d p.1 p.2) d
 /-- `d[k]` (`none` = KeyError) -/
 def get? (d : Assoc κ ν) (k : κ) : Option ν := d.lookup k
 end Assoc
